@@ -59,6 +59,13 @@ static uint8_t* blk_alloc(size_t n)
     memset(p + n, 0xC9, 16);
     return p;
 }
+/* blocks whose start has a chosen residue modulo 8 (block end still exact): half of the time the residue of the place in the
+ * message the bytes are copied to / from, so that copy routines with an "equally aligned" fast path take it */
+static uint8_t* ralloc(size_t n, uint32_t kk) { kk &= 7; return blk_alloc(n + kk) + kk; }
+static void rfree(uint8_t* p, uint32_t kk) { vp_heap_free(p - (kk & 7)); }
+#define KRES(n, where, esz) ((((n) & 1) ? (uint32_t)(g_place + (where)) : (uint32_t)((n) >> 1)) & 7u & ~((uint32_t)(esz) - 1u))
+static uint32_t g_src_kk;
+
 static int blk_ok(const uint8_t* p, size_t n)
 {
     if (!g_canary) return 1;
@@ -222,7 +229,7 @@ static void gen_case(vp_rng_t* r, uint64_t idx, vcase_t* v, int wellformed)
     uint32_t pl;
     if (k % 97 == 96) pl = 65533; else if (k % 5 == 0) pl = (uint32_t)(k % 16); else pl = len_class(r, (uint32_t)k, 1200);
     v->path_len = pl;
-    v->path = vp_heap(pl);                       /* exact-extent source */
+    v->path = ralloc(pl, KRES(pl, 14, 1));       /* exact-extent source */
     vp_rng_fill(r, v->path, pl);
     if (pl > 3) { v->path[0] = 'V'; v->path[1] = 0x00; v->path[2] = 0xE2; }
     switch (v->dt->kind) {
@@ -260,7 +267,7 @@ static void gen_case(vp_rng_t* r, uint64_t idx, vcase_t* v, int wellformed)
 
 static void free_case(vcase_t* v)
 {
-    if (v->path) vp_heap_free(v->path);
+    if (v->path) rfree(v->path, KRES(v->path_len, 14, 1));
     if (v->elems) vp_heap_free((uint8_t*)v->elems);
     if (v->bytes) vp_heap_free(v->bytes);
 }
@@ -270,11 +277,13 @@ static uint8_t* host_data(const vcase_t* v, size_t* nbytes)
 {
     if (v->dt->kind == VK_ARRAY) {
         size_t n = (size_t)v->nelem * v->dt->esize;
-        uint8_t* b = vp_heap(n);
+        g_src_kk = KRES(n / v->dt->esize, 14 + v->P, v->dt->esize);
+        uint8_t* b = ralloc(n, g_src_kk);
         for (uint32_t i = 0; i < v->nelem; i++) el_store(b, i, v->dt->esize, v->elems[i]);
         *nbytes = n; return b;
     }
-    uint8_t* b = vp_heap(v->nbytes);
+    g_src_kk = KRES(v->nbytes, 14 + v->P, 1);
+    uint8_t* b = ralloc(v->nbytes, g_src_kk);
     memcpy(b, v->bytes, v->nbytes);
     *nbytes = v->nbytes; return b;
 }
@@ -356,7 +365,7 @@ static void do_encode_case(vp_ctx_t* c, uint64_t idx)
         check_obj(c, "encode", "set-data", dtn, "source-object");
         if (!bad && v.D > 0) g_nontrivial++;
         if (!bad && (idx % 37) == 5) sample_case(c, "encode", &v, m.p, total);
-        if (src) vp_heap_free(src);
+        if (src) rfree(src, g_src_kk);
     } else g_nontrivial++;
     free_case(&v);
 }
@@ -387,7 +396,7 @@ static void decode_from(vp_ctx_t* c, const vcase_t* v, uint8_t* pdu, const char*
     memset(O.mem + O_PATH, 0xEE, sizeof(VssPath_t)); memset(O.shadow + O_PATH, 0xEE, sizeof(VssPath_t));
     uint8_t* pdst = 0;
     if (v->mode == 0) {
-        pdst = blk_alloc(v->path_len);
+        pdst = ralloc(v->path_len, KRES(v->path_len, 14, 1));
         memset(pdst, 0x77, v->path_len);
         pth->vss_interop_path.path = (char*)pdst; spth->vss_interop_path.path = (char*)pdst;
         spth->vss_interop_path.path_length = (uint16_t)v->path_len;
@@ -401,7 +410,7 @@ static void decode_from(vp_ctx_t* c, const vcase_t* v, uint8_t* pdu, const char*
         vp_tr_bytes(c, pdst, v->path_len > 64 ? 64 : v->path_len);
         if (memcmp(pdst, v->path, v->path_len) != 0) viol_decode(c, "get-path", v, src_kind, "path-bytes-differ", 0, 0, 0);
         if (!blk_ok(pdst, v->path_len)) viol_decode(c, "get-path", v, src_kind, "wrote-beyond-destination", 0, 0, 0);
-        vp_heap_free(pdst);
+        rfree(pdst, KRES(v->path_len, 14, 1));
     } else vp_tr_u64(c, pth->vss_static_id_path);
     /* value */
     VssData_t* d = (VssData_t*)(O.mem + O_DATA); VssData_t* sd = (VssData_t*)(O.shadow + O_DATA);
@@ -445,7 +454,8 @@ static void decode_from(vp_ctx_t* c, const vcase_t* v, uint8_t* pdu, const char*
     if (st->data_length != (uint16_t)nbytes) viol_decode(c, "get-data", v, "length-query", "length-mismatch", nbytes, st->data_length, 0);
     check_obj(c, "decode", "get-data", dtn, "length-query");
     /* phase 2 */
-    uint8_t* dst = blk_alloc(nbytes);
+    uint32_t dkk = KRES(nbytes / (v->dt->kind == VK_ARRAY ? v->dt->esize : 1), 14 + v->P, v->dt->kind == VK_ARRAY ? v->dt->esize : 1);
+    uint8_t* dst = ralloc(nbytes, dkk);
     memset(dst, 0x66, nbytes);
     st->data = dst; sst->data = dst;
     st->data_length = 0xBEEF; sst->data_length = (uint16_t)nbytes;
@@ -496,7 +506,7 @@ static void decode_from(vp_ctx_t* c, const vcase_t* v, uint8_t* pdu, const char*
         }
         vp_arena_resync(&O);
     }
-    vp_heap_free(dst);
+    rfree(dst, dkk);
 }
 
 static void do_decode_case(vp_ctx_t* c, uint64_t idx)
@@ -517,6 +527,20 @@ static void do_decode_case(vp_ctx_t* c, uint64_t idx)
     memcpy(m.p, ref, total); memcpy(m.s, ref, total);
     decode_from(c, &v, m.p, "reference-encoded/arena");
     check_msg(c, &m, "decode", "message-modified", v.dt->name, v.P, v.D);
+    /* (b2) a received message in read-only memory: a decoder that stores into the message - even temporarily, even the same
+     * bytes - faults there (and would race with other readers of a shared frame) */
+    if ((idx % 3) == 1) {
+        static uint8_t* ropage;
+        size_t rosz = 139264;
+        if (!ropage) ropage = vp_map(rosz);
+        size_t ro = 4096 + g_place + (size_t)(idx % 5);
+        vp_readonly(ropage, rosz, 0);
+        memcpy(ropage + ro, ref, total);
+        vp_readonly(ropage, rosz, 1);
+        vp_curop("vss-decode-read-only-message", v.dt->name, "", total);
+        decode_from(c, &v, ropage + ro, "reference-encoded/read-only-page");
+        vp_readonly(ropage, rosz, 0);
+    }
     /* (c) library-encoded message: round trip */
     if ((idx & 3) == 0) {
         VssPath_t* pth = (VssPath_t*)(O.mem + O_PATH);
@@ -530,7 +554,7 @@ static void do_decode_case(vp_ctx_t* c, uint64_t idx)
         Avtp_Vss_SetVssData((Avtp_Vss_t*)m.p, (VssData_t*)(O.mem + O_DATA));
         vp_arena_resync(m.a); vp_arena_resync(&O);
         decode_from(c, &v, m.p, "library-encoded/arena");
-        if (src) vp_heap_free(src);
+        if (src) rfree(src, g_src_kk);
     }
     g_nontrivial++;
     if ((idx % 41) == 3) sample_case(c, "decode", &v, ref, total);
@@ -572,56 +596,60 @@ static void pad_exact(vp_ctx_t* c, uint32_t n)
     }
 }
 
+static void pad_one(vp_ctx_t* c, uint32_t n, uint64_t r)
+{
+    msg_t m;
+    m.a = &A_big; m.p = A_big.mem + PDU_BASE + g_place; m.s = A_big.shadow + PDU_BASE + g_place;
+    uint32_t pad = (4 - n % 4) % 4;
+    /* prior contents of message, pad bytes and what follows */
+    if (r == 0) { memset(m.p, 0xff, n + 8); }
+    else if (r == 1) { memset(m.p, 0x00, n); memset(m.p + n, 0xff, 8); }
+    else vp_rng_fill(&c->rng, m.p, n + 8);
+    if (r == 2 || r == 3) {
+        /* a reused buffer that was finalised before: the header already holds the target length and pad, the first pad
+         * byte is already zero, later pad bytes are dirty (r == 3: length field holds the value of the previous size) */
+        bf_set(m.p, POS_LEN, 9, (n + pad) / 4 - (r == 3 ? 1 : 0)); bf_set(m.p, POS_PAD, 2, pad);
+        m.p[n] = 0; m.p[n + 1] = 0xEE; m.p[n + 2] = 0x07; m.p[n + 3] = 0x5A;
+    }
+    memcpy(m.s, m.p, n + 8);
+    uint8_t before[HDR]; memcpy(before, m.p, HDR);
+    bf_set(m.s, POS_LEN, 9, (n + pad) / 4);
+    bf_set(m.s, POS_PAD, 2, pad);
+    memset(m.s + n, 0, pad);
+    vp_curop("vss-pad", "", "", n);
+    vp_call(c);
+    Avtp_Vss_Pad((Avtp_Vss_t*)m.p, (uint16_t)n);
+    vp_tr_bytes(c, m.p, HDR); vp_tr_bytes(c, m.p + n - 2, 6);
+    size_t off, cnt, last;
+    c->evals++;
+    if (vp_arena_diff(c, m.a, &off, &cnt, &last)) {
+        size_t base = (size_t)(m.p - m.a->mem);
+        const char* reg = off < base ? "stray-write-before" : off - base < HDR ? "header-fields" : off - base < n ? "message-body" :
+                          off - base < n + pad ? "pad-bytes" : "beyond-pad";
+        char res[2] = { (char)('0' + n % 4), 0 };
+        if (vp_viol(c, "pad", reg, "len%4=", res, 0, 0)) {
+            o_s(c, "{\"length\":"); o_u(c, n); o_s(c, ",\"first_off\":"); if (off >= base) o_u(c, off - base); else { o_s(c, "-"); o_u(c, base - off); }
+            o_s(c, ",\"last_off\":"); if (last >= base) o_u(c, last - base); else o_u(c, 0); o_s(c, ",\"nbytes\":"); o_u(c, cnt);
+            o_s(c, ",\"header_before\":\""); o_hex(c, before, HDR); o_s(c, "\",\"header_expected\":\""); o_hex(c, m.s, HDR); o_s(c, "\",\"header_actual\":\""); o_hex(c, m.p, HDR);
+            o_s(c, "\",\"tail_expected\":\""); o_hex(c, m.s + n - 2, 8); o_s(c, "\",\"tail_actual\":\""); o_hex(c, m.p + n - 2, 8); o_s(c, "\"}"); o_end(c);
+        }
+        vp_arena_resync(m.a);
+    }
+    if (r == 0) g_nontrivial++;
+    if (g_samples && r == 2 && n % 511 == 17) {
+        g_samples--; c->outn = 0;
+        o_s(c, "X|{\"op\":\"pad\",\"length\":"); o_u(c, n); o_s(c, ",\"header_before\":\""); o_hex(c, before, 4); o_s(c, "\",\"header_after\":\""); o_hex(c, m.p, 4);
+        o_s(c, "\",\"tail_after\":\""); o_hex(c, m.p + n - 2, 8); o_s(c, "\"}"); o_end(c);
+    }
+
+}
+
 static void do_pad(vp_ctx_t* c, uint64_t reps)
 {
     msg_t m;
     for (uint32_t n = 12; n <= 2044; n++) pad_exact(c, n);
-    for (uint32_t n = 12; n <= 2044; n++) {
-        for (uint64_t r = 0; r < reps; r++) {
-            m.a = &A_big; m.p = A_big.mem + PDU_BASE + g_place; m.s = A_big.shadow + PDU_BASE + g_place;
-            uint32_t pad = (4 - n % 4) % 4;
-            /* prior contents of message, pad bytes and what follows */
-            if (r == 0) { memset(m.p, 0xff, n + 8); }
-            else if (r == 1) { memset(m.p, 0x00, n); memset(m.p + n, 0xff, 8); }
-            else vp_rng_fill(&c->rng, m.p, n + 8);
-            if (r == 2 || r == 3) {
-                /* a reused buffer that was finalised before: the header already holds the target length and pad, the first pad
-                 * byte is already zero, later pad bytes are dirty (r == 3: length field holds the value of the previous size) */
-                bf_set(m.p, POS_LEN, 9, (n + pad) / 4 - (r == 3 ? 1 : 0)); bf_set(m.p, POS_PAD, 2, pad);
-                m.p[n] = 0; m.p[n + 1] = 0xEE; m.p[n + 2] = 0x07; m.p[n + 3] = 0x5A;
-            }
-            memcpy(m.s, m.p, n + 8);
-            uint8_t before[HDR]; memcpy(before, m.p, HDR);
-            bf_set(m.s, POS_LEN, 9, (n + pad) / 4);
-            bf_set(m.s, POS_PAD, 2, pad);
-            memset(m.s + n, 0, pad);
-            vp_curop("vss-pad", "", "", n);
-            vp_call(c);
-            Avtp_Vss_Pad((Avtp_Vss_t*)m.p, (uint16_t)n);
-            vp_tr_bytes(c, m.p, HDR); vp_tr_bytes(c, m.p + n - 2, 6);
-            size_t off, cnt, last;
-            c->evals++;
-            if (vp_arena_diff(c, m.a, &off, &cnt, &last)) {
-                size_t base = (size_t)(m.p - m.a->mem);
-                const char* reg = off < base ? "stray-write-before" : off - base < HDR ? "header-fields" : off - base < n ? "message-body" :
-                                  off - base < n + pad ? "pad-bytes" : "beyond-pad";
-                char res[2] = { (char)('0' + n % 4), 0 };
-                if (vp_viol(c, "pad", reg, "len%4=", res, 0, 0)) {
-                    o_s(c, "{\"length\":"); o_u(c, n); o_s(c, ",\"first_off\":"); if (off >= base) o_u(c, off - base); else { o_s(c, "-"); o_u(c, base - off); }
-                    o_s(c, ",\"last_off\":"); if (last >= base) o_u(c, last - base); else o_u(c, 0); o_s(c, ",\"nbytes\":"); o_u(c, cnt);
-                    o_s(c, ",\"header_before\":\""); o_hex(c, before, HDR); o_s(c, "\",\"header_expected\":\""); o_hex(c, m.s, HDR); o_s(c, "\",\"header_actual\":\""); o_hex(c, m.p, HDR);
-                    o_s(c, "\",\"tail_expected\":\""); o_hex(c, m.s + n - 2, 8); o_s(c, "\",\"tail_actual\":\""); o_hex(c, m.p + n - 2, 8); o_s(c, "\"}"); o_end(c);
-                }
-                vp_arena_resync(m.a);
-            }
-            if (r == 0) g_nontrivial++;
-            if (g_samples && r == 2 && n % 511 == 17) {
-                g_samples--; c->outn = 0;
-                o_s(c, "X|{\"op\":\"pad\",\"length\":"); o_u(c, n); o_s(c, ",\"header_before\":\""); o_hex(c, before, 4); o_s(c, "\",\"header_after\":\""); o_hex(c, m.p, 4);
-                o_s(c, "\",\"tail_after\":\""); o_hex(c, m.p + n - 2, 8); o_s(c, "\"}"); o_end(c);
-            }
-        }
-    }
+    for (uint32_t n = 12; n <= 2044; n++)
+        for (uint64_t r = 0; r < reps; r++) pad_one(c, n, r);
     /* all 512 values of the length field through the dedicated accessors vs the generic ones */
     m.a = &A_small; m.p = A_small.mem + PDU_BASE + g_place; m.s = A_small.shadow + PDU_BASE + g_place;
     for (uint32_t L = 0; L < 512; L++) {
@@ -762,17 +790,22 @@ static void do_strarr_case(vp_ctx_t* c, uint64_t idx)
         uint32_t req = reqs[q];
         if (req > n + extra) req = n + extra;
         const char* rq = req < n ? "fewer" : req == n ? "exact" : "more";
-        for (int phase = 0; phase < 2; phase++) {
+        for (int phase = 0; phase < 3; phase++) {        /* 0: lengths only, 1: all destinations supplied, 2: every other destination supplied */
             static uint8_t* dsts[MAXSTR + 16];
             VssDataString_t* sso = (VssDataString_t*)(O.shadow + O_STRS + (MAXSTR + 64) * sizeof(void*));
             for (uint32_t i = 0; i < req; i++) {
-                so[i].data_length = 0xABCD;
-                if (phase == 1 && i < n) { dsts[i] = blk_alloc(lens[i]); memset(dsts[i], 0x11, lens[i]); so[i].data = (char*)dsts[i]; }
+                /* whatever the descriptors held before (a previous, shorter or longer, array) is not a capacity */
+                uint32_t li = i < n ? lens[i] : 7;
+                static const uint32_t K = 6;
+                switch ((i + (uint32_t)q + (uint32_t)phase) % K) { case 0: so[i].data_length = 0xABCD; break; case 1: so[i].data_length = 0; break; case 2: so[i].data_length = 1; break;
+                                                 case 3: so[i].data_length = (uint16_t)(li / 2); break; case 4: so[i].data_length = (uint16_t)li; break; default: so[i].data_length = (uint16_t)(li + 1); break; }
+                int want = phase == 1 || (phase == 2 && ((i + (uint32_t)q) & 1));
+                if (want && i < n) { dsts[i] = blk_alloc(lens[i]); memset(dsts[i], 0x11, lens[i]); so[i].data = (char*)dsts[i]; }
                 else { dsts[i] = 0; so[i].data = 0; }
             }
             memcpy(O.shadow, O.mem, OBJ_SZ);
             for (uint32_t i = 0; i < req && i < n; i++) sso[i].data_length = lens[i];
-            vp_curop("vss-deserialize-strings", rq, phase ? "copy" : "lengths-only", n);
+            vp_curop("vss-deserialize-strings", rq, phase == 1 ? "copy" : phase ? "mixed-destinations" : "lengths-only", n);
             vp_call(c);
             Avtp_Vss_DeserializeStringArray(arr, sp, (uint16_t)req);
             c->evals++;
@@ -781,16 +814,17 @@ static void do_strarr_case(vp_ctx_t* c, uint64_t idx)
                 size_t so_off = O_STRS + (MAXSTR + 64) * sizeof(void*);
                 uint64_t which = off >= so_off ? (off - so_off) / sizeof(VssDataString_t) : 0;
                 const char* kind = which >= n ? "touched-string-beyond-packed-count" : "length-mismatch";
-                if (vp_viol(c, "strarr", "deserialize", rq, phase ? "copy" : "lengths-only", kind, lmode == 2 ? "empty-last" : "-")) {
+                if (vp_viol(c, "strarr", "deserialize", rq, phase == 1 ? "copy" : phase ? "mixed-destinations" : "lengths-only", kind, lmode == 2 ? "empty-last" : "-")) {
                     o_s(c, "{\"strings\":"); o_u(c, n); o_s(c, ",\"requested\":"); o_u(c, req); o_s(c, ",\"object_index\":"); o_u(c, which);
                     o_s(c, ",\"expected\":\""); o_hex(c, O.shadow + off, 8); o_s(c, "\",\"actual\":\""); o_hex(c, O.mem + off, 8); o_s(c, "\"}"); o_end(c);
                 }
                 vp_arena_resync(&O);
             }
-            if (phase == 1) {
+            if (phase >= 1) {
                 for (uint32_t i = 0; i < req && i < n; i++) {
+                    if (!dsts[i]) continue;
                     c->evals++;
-                    if (memcmp(dsts[i], strs[i], lens[i]) != 0 && vp_viol(c, "strarr", "deserialize", rq, "copy", "string-bytes-differ", 0)) {
+                    if (memcmp(dsts[i], strs[i], lens[i]) != 0 && vp_viol(c, "strarr", "deserialize", rq, phase == 1 ? "copy" : "mixed-destinations", "string-bytes-differ", 0)) {
                         o_s(c, "{\"strings\":"); o_u(c, n); o_s(c, ",\"index\":"); o_u(c, i); o_s(c, ",\"len\":"); o_u(c, lens[i]); o_s(c, "}"); o_end(c);
                     }
                     if (!blk_ok(dsts[i], lens[i]) && vp_viol(c, "strarr", "deserialize", rq, "copy", "wrote-beyond-destination", 0)) { o_s(c, "{\"index\":"); o_u(c, i); o_s(c, "}"); o_end(c); }
@@ -810,6 +844,7 @@ static void do_strarr_case(vp_ctx_t* c, uint64_t idx)
     for (uint32_t i = 0; i < n; i++) vp_heap_free(strs[i]);
 }
 
+#ifndef VP_NO_MAIN
 int main(void)
 {
     vp_watchdog_start();       /* these monitors call the library continuously: a long silence is a spinning call */
@@ -836,3 +871,4 @@ int main(void)
     vp_finish(c, "vssmon");
     return 0;
 }
+#endif
